@@ -15,6 +15,7 @@ import (
 	gmsl "github.com/matrix-org/gomatrixserverlib"
 	"github.com/matrix-org/gomatrixserverlib/fclient"
 	"github.com/matrix-org/gomatrixserverlib/spec"
+	"github.com/tidwall/sjson"
 
 	"verifharness/sim"
 	"verifharness/world"
@@ -1415,6 +1416,14 @@ func (jc *joinClient) MakeJoin(ctx context.Context, origin, s spec.ServerName, r
 	case "template_other_sender":
 		tpl.SenderID = rm.users[0].id
 		tpl.StateKey = world.Str(rm.users[0].id)
+	case "template_no_version":
+		// "If not provided, the room version is assumed to be either 1 or 2":
+		// the library then takes 1 or 4 by the shape of the template's auth
+		// events, which is right for rooms of exactly those versions
+		if rm.ver == "1" || rm.ver == "4" {
+			ver = ""
+			c.r.Probe("make_join_answer_without_room_version")
+		}
 	}
 	b, err := json.Marshal(map[string]any{"event": tpl, "room_version": ver})
 	if err != nil {
@@ -1508,6 +1517,24 @@ func (jc *joinClient) SendJoin(ctx context.Context, origin, s spec.ServerName, e
 		if o, err := rm.buildWith(c.ju, []string{rm.tip.id}, rm.tip.ev.Depth()+1, part, spec.MRoomMember, world.Str(c.ju.id), map[string]any{"membership": "join"}); err == nil {
 			out.Event = o.JSON()
 		}
+	case "remote_event_other_room":
+		// the joiner's own join, properly signed, of another room
+		other := "!elsewhere:" + string(rm.R().Name)
+		if rm.impl.DomainlessRoomIDs() {
+			other = "!" + strings.Repeat("A", 43)
+		}
+		p := world.Proto{RoomID: other, Sender: c.ju.id, Type: spec.MRoomMember, StateKey: world.Str(c.ju.id), Content: map[string]any{"membership": "join"},
+			Prev: []string{rm.tip.id}, Depth: rm.tip.ev.Depth() + 1, AuthFrom: provOf(state)}
+		if o, err := world.Build(rm.impl, p, rm.nextTS(), c.ju.srv.Name, c.ju.srv.Current()); err == nil {
+			out.Event = o.JSON()
+		} else {
+			c.r.Probe("remote_event_other_room_not_buildable")
+		}
+	case "remote_event_odd_membership":
+		// the event the resident accepted, with a membership that is not a string
+		if b, err := sjson.SetRawBytes(append([]byte{}, out.Event...), "content.membership", []byte(sim.Pick(t, []string{"5", "null", `["join"]`, `{"join":true}`}))); err == nil {
+			out.Event = b
+		}
 	case "remote_event_garbage":
 		out.Event = []byte(sim.Pick(t, malformedSamples[1:]))
 	case "remote_event_absent":
@@ -1526,8 +1553,15 @@ func (c *c15) opPerformJoin() {
 	for i := 0; i < nf; i++ {
 		k := []string{"template_wrong_type", "template_wrong_room", "template_redacts", "template_unknown_version", "template_other_sender",
 			"create_missing", "create_only_in_state", "create_unknown_version", "remote_event_not_a_join", "remote_event_other_user", "remote_event_garbage", "remote_event_absent",
-			"send_join_state_faults", "resident_skips_auth", "remote_event_other_sender", "remote_event_thin_auth"}[t.Weighted([]int{2, 2, 2, 2, 1, 4, 2, 3, 2, 2, 1, 1, 6, 2, 3, 3})]
+			"send_join_state_faults", "resident_skips_auth", "remote_event_other_sender", "remote_event_thin_auth",
+			"template_no_version", "remote_event_other_room", "remote_event_odd_membership"}[t.Weighted([]int{2, 2, 2, 2, 1, 4, 2, 3, 2, 2, 1, 1, 6, 2, 3, 3, 2, 2, 1})]
 		switch {
+		case k == "template_no_version":
+			// a legitimate answer where it is applied (rooms of version 1 or 4): not a fault
+			if jc.tplFault == "" {
+				jc.tplFault = k
+			}
+			continue
 		case strings.HasPrefix(k, "template_"):
 			jc.tplFault = k
 		case k == "send_join_state_faults":
@@ -1574,6 +1608,11 @@ func (c *c15) opPerformJoin() {
 		r.Probe("perform_join_failed")
 		if len(c.faults) == 0 && jc.mjErr == nil && jc.sjErr == nil {
 			r.Violate("C15", "performjoin_spurious_failure", c.sig(), "PerformJoin failed against an honest resident that accepted make_join and send_join: %v", ferr)
+		}
+		if len(c.faults) == 0 && jc.mjErr == nil && jc.sjErr != nil && jc.sentJoin != nil {
+			// the resident offered a template and nothing changed since: the
+			// join built from it is refused only if it was built wrongly
+			r.Violate("C15", "performjoin_spurious_failure", "own_join_refused", "the honest resident that had just offered the template refused the join PerformJoin built from it (%s): %v", describe(jc.sentJoin), jc.sjErr)
 		}
 		return
 	}
